@@ -128,6 +128,7 @@ CHECKS["C14"] = {
         H("name", "c14.go", "VerifH_C14_utf16_units", ["done"], quick={"timeout": 280}),
         H("name", "c14.go", "VerifH_C14_name", ["decoded"], quick={"params": {"maxids": 1, "langs": 1, "maxchars": 2}, "timeout": 280}, thorough={"params": {"maxids": 2, "langs": 3, "maxchars": 2}, "timeout": 2400}),
         H("name", "c14.go", "VerifH_C14_name_bytes", ["accepted"], quick={"params": {"maxextra": 2, "maxrec": 1}, "timeout": 280}, thorough={"params": {"maxextra": 8, "maxrec": 2}, "timeout": 2400}),
+        H("opentype/gtab", ["c08.go", "common.go"], "VerifH_C08_scriptlist", ["read"], quick={"timeout": 280}),
         H("post", "c14.go", "VerifH_C14_postnames", ["format1", "format2"], quick={"params": {"maxnames": 1}, "timeout": 280}, thorough={"params": {"maxnames": 2}, "timeout": 2400}),
     ],
     "bounds": {"quick": "Mac Roman: every byte string of length 1 [2 thorough] and every Unicode scalar value; UTF-16: every valid string of <=2 scalar values, every sequence of <=2 code units (plus a dangling byte); name table: Macintosh 'en' and Windows 'en-US' [3 languages each in thorough], 1 name id symbolic over 0..65535, strings of 1..2 characters (Mac: printable ASCII; Windows: any scalar values); arbitrary name-table bytes with <=1 record [2]; post: names nil / the 258 standard names (optionally one replaced) / lists of 1 [2] names (standard by symbolic index or symbolic custom strings of 0..2 bytes)",
@@ -235,12 +236,13 @@ CHECKS["C08"] = {
         H("opentype/gtab", _G, "VerifH_C08_gsub", ["read"], quick={"timeout": 280}),
         H("opentype/gtab", _G, "VerifH_C08_gpos", ["read"], quick={"timeout": 280}),
         H("opentype/gtab", _G, "VerifH_C08_gpos2", ["read"], quick={"timeout": 280, "shards": 4}),
+        H("opentype/gtab", _G, "VerifH_C08_scriptlist", ["read"], quick={"timeout": 280}),
         H("opentype/gtab", _G, "VerifH_C08_context", ["read"], quick={"params": {"ctxbig": 0}, "timeout": 280, "shards": 6}, thorough={"params": {"ctxbig": 1}, "timeout": 2400, "shards": 6}),
         H("opentype/gtab", _G, "VerifH_C08_lookuplist", ["read"], quick={"params": {"maxlookups": 2}, "timeout": 280}, thorough={"params": {"maxlookups": 3}, "timeout": 2400}),
     ],
     "bounds": {"quick": "coverage tables of 0..4 symbolic glyph ids over the full 16-bit range, arbitrary coverage bytes (<=12); class definitions of 0..3 glyphs inside an 8-id window with symbolic classes, arbitrary bytes (<=12); GSUB 1.1/1.2/2.1/3.1/4.1, GPOS 1.1/1.2/2.1/2.2/3.1/4.1/6.1, (chained) sequence context formats 1, 2 and 3 (class based formats with nil / empty / one-rule rule sets per class) with 1..2 coverage glyphs, <=2 rules/ligatures/alternates, <=2 nested actions, all ids/values symbolic; lookup lists of 0..2 lookups with symbolic flags and mark filtering set; GDEF tables with 0..2 classed glyphs, a mark attachment class and 0..2 mark glyph sets of 0..2 symbolic glyphs",
                "thorough": "6 coverage glyphs, 5 classdef glyphs, 3 lookups"},
-    "outside": ["GPOS 5 and GSUB 8.1 round trips, GPOS 2.2/3.1/4.1/6.1 beyond 2x2 classes / 2 glyphs per coverage", "extension subtables for lookup lists beyond 64 KiB", "gtab.Info with script/language/feature lists (x/text language tags)"],
+    "outside": ["GPOS 5 and GSUB 8.1 round trips, GPOS 2.2/3.1/4.1/6.1 beyond 2x2 classes / 2 glyphs per coverage", "extension subtables for lookup lists beyond 64 KiB", "script lists beyond 5 language systems of 3 scripts (x/text language tags run natively on concrete tags), feature lists"],
     "assumptions": ["coverage tables have indices 0..n-1 in increasing glyph order (value domain)", "class 0 entries are not stored (normal form)"],
 }
 
